@@ -16,14 +16,6 @@ def lowerStr (s : Str) : Str := s.flatMap lowerChar
 def lstripStr (s : Str) : Str := s.dropWhile isStripSpace
 def rstripStr (s : Str) : Str := (s.reverse.dropWhile isStripSpace).reverse
 
-/-- stable insertion sort (structurally recursive, so the kernel can evaluate it) -/
-def insertSorted {α} (le : α → α → Bool) (x : α) : List α → List α
-  | [] => [x]
-  | y :: ys => if le x y then x :: y :: ys else y :: insertSorted le x ys
-def insertionSort {α} (le : α → α → Bool) : List α → List α
-  | [] => []
-  | x :: xs => insertSorted le x (insertionSort le xs)
-
 inductive Part where
   | text (s : Str)
   | num (n : Num)
